@@ -288,6 +288,9 @@ func TestTagStage(t *testing.T) {
 			if d := model.DupKeys(mm); len(d) > 0 {
 				vt.Fail(t, "C10:duplicate-series", "series under two keys after the tag stage: %v", d)
 			}
+			if d := model.StaleKeys(mm); len(d) > 0 {
+				vt.Fail(t, "C10:stale-key", "after the tag stage a series is stored under a key that is not its own: %v", d)
+			}
 			got.AddMap(mm)
 		}
 		if d := model.Diff(got, want, model.Opts{SampledTol: 1e-12}); d != "" {
